@@ -32,10 +32,29 @@ def translate_job(job):
         out["status"] = "unparsable"
         return out
     signal.signal(signal.SIGALRM, _alarm)
+    from qlasskit import _verif
+    passes = []
+
+    def sink(ev, f):
+        if ev == "a2a.pass" and f["name"] != "input" and not sink.done:
+            try:
+                j = ser.ser_ast(f["tree"])
+                pyast.copy_types(d, j)
+                passes.append({"name": f["name"], "def": j})
+            except Exception:
+                pass
+            if f["name"] == "ConstantFolder2":
+                sink.done = True  # only the outermost function, once
+
+    sink.done = False
     for opt in job.get("opts", ("default", "fast")):
         signal.alarm(int(job.get("timeout", 30)))
         try:
-            qf = qlassf(src, to_compile=False, bool_optimizer=optimizer(opt))
+            _verif.set_sink(sink if job.get("passes") else None)
+            try:
+                qf = qlassf(src, to_compile=False, bool_optimizer=optimizer(opt))
+            finally:
+                _verif.set_sink(None)
             if type(qf).__name__ == "UnboundQlassf":
                 out["status"] = "unbound"
                 return out
@@ -57,6 +76,8 @@ def translate_job(job):
             return out
         finally:
             signal.alarm(0)
+    if passes:
+        out["passes"] = {"def0": d, "fns": NONE, "passes": passes}
     return out
 
 
@@ -125,10 +146,32 @@ def run(pid):
     t = tier()
     rep = Report(pid, "translation_validation")
     srcs = progs.corpus("C01", t, seed())
-    jobs = [{"src": s["src"], "origin": s["origin"], "timeout": 30} for s in srcs]
+    jobs = [{"src": s["src"], "origin": s["origin"], "timeout": 30, "passes": True} for s in srcs]
     results = run_jobs(translate_job, jobs)
     with Scratch("C01") as sc:
         cov, vst = judge("C01", rep, results, sc)
+        # the AST passes as state transformers (spec/Trace_Passes.tla): for every failing program and a seeded
+        # sample of the others, the first pass after which the reference meaning differs from the source's
+        import random
+        rng = random.Random(seed())
+        failing = {v[0]["src"] for v in rep.violations if isinstance(v[0], dict) and "src" in v[0]}
+        pool = [r for r in results if r.get("passes") and len(r["cases"]) > 0 and len(r["cases"][0]["inputs"]) <= 9]
+        rng.shuffle(pool)
+        chosen = [r for r in pool if r["src"] in failing] + [r for r in pool if r["src"] not in failing][: (150 if t == "quick" else 1500)]
+        pcases = [dict(r["passes"], id=k) for k, r in enumerate(chosen)]
+        pverd, _ = tlc.run_cases("Trace_Passes", pcases, sc, timeout=2400, heap="4g")
+        pst, loc = {}, {}
+        for k, r in enumerate(chosen):
+            v = pverd[k]
+            key = v[0] if v[0] != "differs" else f"differs-after:{v[1]}"
+            pst[key] = pst.get(key, 0) + 1
+            if v[0] == "differs":
+                loc[r["src"]] = v[1]
+        cov["ast_passes"] = {"programs": len(chosen), "verdicts": pst,
+                             "localised_failures": [{"src": s, "first_pass_changing_the_meaning": p} for s, p in list(loc.items())[:20]]}
+        for case, clause, detail in rep.violations:
+            if isinstance(case, dict) and case.get("src") in loc:
+                case["first_ast_pass_changing_the_meaning"] = loc[case["src"]]
     vac = None
     if vst.get("ok", 0) < 100:
         vac = f"only {vst.get('ok', 0)} cases judged ok"
